@@ -121,24 +121,26 @@ func (f *Fn) Locks(extra map[*types.Func]LockOp) *LockState {
 		}
 		return out
 	}
-	ls.In[g.Entry] = map[string]int{}
-	work := []int{g.Entry}
-	inWork := map[int]bool{g.Entry: true}
+	pg := f.Product()
+	pin := make([]map[string]int, len(pg.Vs))
+	pin[pg.Entry] = map[string]int{}
+	work := []int32{pg.Entry}
+	inWork := map[int32]bool{pg.Entry: true}
 	for len(work) > 0 {
 		id := work[0]
 		work = work[1:]
 		inWork[id] = false
-		out := apply(ls.In[id], effects[id])
-		for _, s := range g.Vs[id].Succ {
+		out := apply(pin[id], effects[pg.Vs[id].Orig])
+		for _, s := range pg.Vs[id].Succ {
 			var nw map[string]int
-			if ls.In[s] == nil {
+			if pin[s] == nil {
 				nw = map[string]int{}
 				for k, m := range out {
 					nw[k] = m
 				}
 			} else {
 				nw = map[string]int{}
-				for k, m := range ls.In[s] {
+				for k, m := range pin[s] {
 					if m2, ok := out[k]; ok {
 						if m2 < m {
 							m = m2
@@ -146,10 +148,10 @@ func (f *Fn) Locks(extra map[*types.Func]LockOp) *LockState {
 						nw[k] = m
 					}
 				}
-				if len(nw) == len(ls.In[s]) {
+				if len(nw) == len(pin[s]) {
 					same := true
 					for k, m := range nw {
-						if ls.In[s][k] != m {
+						if pin[s][k] != m {
 							same = false
 						}
 					}
@@ -158,12 +160,38 @@ func (f *Fn) Locks(extra map[*types.Func]LockOp) *LockState {
 					}
 				}
 			}
-			ls.In[s] = nw
+			pin[s] = nw
 			if !inWork[s] {
 				inWork[s] = true
 				work = append(work, s)
 			}
 		}
+	}
+	// fold the product states back: a lock is held at a vertex iff held in every feasible state
+	for orig, ids := range pg.ByOrig {
+		var acc map[string]int
+		for _, id := range ids {
+			if pin[id] == nil {
+				continue
+			}
+			if acc == nil {
+				acc = map[string]int{}
+				for k, m := range pin[id] {
+					acc[k] = m
+				}
+				continue
+			}
+			for k, m := range acc {
+				if m2, ok := pin[id][k]; ok {
+					if m2 < m {
+						acc[k] = m2
+					}
+				} else {
+					delete(acc, k)
+				}
+			}
+		}
+		ls.In[orig] = acc
 	}
 	return ls
 }
